@@ -213,3 +213,162 @@ def app_subsampled(ctx, P, e, capp, argv, out, rows, starts, sub, k, cutoff, alg
         require(gi == [int(c) for c in serial.center_indices], 'differs_from_serial',
                 lambda: 'subsampled run on %d ranks: centres %s, serial run on the strided data gives %s' % (P.N, gi, list(map(int, serial.center_indices))))
         ctx.hit('app_equals_serial')
+
+
+# ---------------------------------------------------------------- trajectories + RMSD through the front end
+def app_traj_scenario(ctx):
+    """`apps.cluster.main --trajectories ... --topology ... --atoms ...` on N simulated ranks: striped loading through the
+    (simulated) worker pool, RMSD clustering, reassembly, and rank 0 writing indices, structures, labels and distances."""
+    import pickle
+    import mdtraj as md
+    from ..engines import simpool
+    from .c10 import make_top
+    t = ctx.tape
+    e = C.E()
+    from enspara.apps import cluster as capp
+    ra = e['ra']
+    U = e['util']
+    N = t.irange(1, 4)
+    two = t.flag(1, 4)
+    n_res = t.irange(2, 3)
+    tops = [make_top(n_res, False)] + ([make_top(n_res, True)] if two else [])
+    selection = t.choice(('name CA or name C', 'name N or name CA or name C'))
+    sub = 1 if t.flag(2, 3) else t.irange(2, 3)
+    ext = t.choice(('h5', 'xtc', 'h5'))
+    d = ctx.scratch()
+    rs = np.random.RandomState(t.draw(2 ** 31 - 1))
+    topfiles, trjsets, loaded_sel, loaded_all, sels, group_of = [], [], [], [], [], []
+    n_first = max(N - (1 if two else 0), 1) + t.draw(3)
+    for ti, top in enumerate(tops):
+        tf = os.path.join(d, 'top%d.pdb' % ti)
+        md.Trajectory(rs.rand(1, top.n_atoms, 3).astype('float32'), top).save(tf)
+        topfiles.append(tf)
+        ftop = md.load(tf).top
+        sel = ftop.select(selection)
+        sels.append(sel)
+        files = []
+        for j in range(n_first if ti == 0 else t.irange(1, 2)):
+            Lf = 1 if t.flag(1, 6) else t.irange(1, 6)
+            x = rs.rand(Lf, top.n_atoms, 3).astype('float32')
+            # names are given explicitly on the command line; the front end sorts what each glob pattern expands to, so keep
+            # every name its own pattern
+            fn = os.path.join(d, 'g%d_t%02d.%s' % (ti, j, ext))
+            md.Trajectory(x, top).save(fn)
+            files.append(fn)
+            loaded_sel.append(md.load(fn, top=ftop, atom_indices=sel, stride=sub).xyz)
+            loaded_all.append(md.load(fn, top=ftop).xyz)
+            group_of.append(ti)
+        trjsets.append(files)
+    flat_files = [f for fs in trjsets for f in fs]
+    slens = [len(x) for x in loaded_sel]
+    full_lens = [len(x) for x in loaded_all]
+    Xall = np.concatenate(loaded_sel).astype(np.float32)
+    n = len(Xall)
+    if n < 3 or len(flat_files) < N:
+        ctx.count('traj_app_too_small')
+        return
+    P = C.Problem.__new__(C.Problem)
+    P.N, P.lengths, P.n, P.atoms, P.dim = N, slens, n, Xall.shape[1], Xall.shape[1]
+    P.dtype, P.metric_name, P.rmsd_as_callable, P.X = 'float32', 'rmsd', False, Xall
+    P.model_metric, P.scale, P.jitter = M.METRICS['rmsd'], 1.0, True
+    P.l2g = M.local_to_global(slens, N)
+    k, cutoff = P.draw_stop(ctx, max_k=6)
+    algo = t.choice(('kcenters', 'kcenters', 'khybrid'))
+    n_iters = t.irange(0, 2) if algo == 'khybrid' else None
+    nprocs = t.irange(1, 4)
+    out = dict(dist=os.path.join(d, 'out-dist.h5'), assig=os.path.join(d, 'out-assig.h5'),
+               ctr=os.path.join(d, 'out-centers.pickle'), inds=os.path.join(d, 'out-inds.npy'))
+    argv = ['cluster']
+    for fs, tf in zip(trjsets, topfiles):
+        argv += ['--trajectories'] + fs + ['--topology', tf]
+    argv += ['--atoms', selection, '--algorithm', algo, '--distances', out['dist'], '--assignments', out['assig'],
+             '--center-features', out['ctr'], '--center-indices', out['inds']]
+    if t.flag():
+        argv += ['--cluster-distance', 'rmsd']
+    if k is not None:
+        argv += ['--cluster-number', str(k)]
+    if cutoff is not None:
+        argv += ['--cluster-radius', repr(float(cutoff))]
+    if n_iters is not None:
+        argv += ['--cluster-iterations', str(n_iters)]
+    if sub > 1:
+        argv += ['--subsample', str(sub), '--no-reassign']
+        ctx.hit('traj_app_subsample')
+    ctx.scenario.update(family='app_trajectories', ranks=N, topologies=len(tops), files=[len(f) for f in trjsets], lengths_on_disk=full_lens,
+                        subsample=sub, selection=selection, format=ext, algo=algo, n_clusters=k, dist_cutoff=cutoff, n_iters=n_iters,
+                        pool_workers=nprocs, argv=[a if not a.startswith(d) else os.path.basename(a) for a in argv])
+    ctx.fp('app_traj', N, tuple(full_lens), sub, selection, ext, algo, k, cutoff, n_iters, nprocs, Xall.tobytes())
+    kw = C.kc_kwargs(k, cutoff)
+    serial = ctx.sut(e['kcenters'].kcenters, M.as_traj(Xall), 'rmsd', **kw)
+    g, tie_free = M.greedy_run(Xall, P.model_metric, k, cutoff, tol=P.tie_tol(), cut_tol=P.cut_tol(), noise=P.noise)
+    old_mode, old_np = capp.mpi_mode, U.auto_nprocs
+    capp.mpi_mode = N > 1
+    U.auto_nprocs = lambda: nprocs
+    np.random.seed(t.draw(2 ** 31 - 1))
+    try:
+        with simpool.installed(ctx):
+            with write_guard(ctx, d) as writers:
+                w = C.make_world(ctx, N, 0)
+                rcs = w.run(lambda r: capp.main(list(argv)))
+    finally:
+        capp.mpi_mode, U.auto_nprocs = old_mode, old_np
+    st = w.stats()
+    ctx.steps += st['collectives'] + st['decisions']
+    ctx.count('collectives', st['collectives'])
+    ctx.fp(tuple(w.sched_trace))
+    if st['decisions'] > 0 and N >= 2:
+        ctx.nontrivial = True
+    ctx.hit('traj_app_end_to_end')
+    if two:
+        ctx.hit('traj_app_two_topologies')
+    require(all(rc == 0 for rc in rcs), 'app_failed', lambda: 'main() returned %s' % rcs)
+    bad_writers = sorted({(r, f) for r, f in writers if r != 0})
+    require(not bad_writers, 'non_root_rank_wrote_output', lambda: 'ranks other than 0 opened for writing: %s' % bad_writers[:6])
+    for key in ('ctr', 'inds') + (('dist', 'assig') if sub == 1 else ()):
+        require(os.path.exists(out[key]), 'output_missing', lambda: 'no %s file' % key)
+    inds = np.load(out['inds'], allow_pickle=True)
+    with open(out['ctr'], 'rb') as f:
+        ctrs = pickle.load(f)
+    require(len(inds) == len(ctrs), 'center_count_mismatch', lambda: '%d centre indices, %d centre structures' % (len(inds), len(ctrs)))
+    sstarts = np.concatenate([[0], np.cumsum(slens)[:-1]]).astype(int)
+    gi, want_structs = [], []
+    for tr, fr in inds:
+        tr, fr = int(tr), int(fr)
+        require(0 <= tr < len(flat_files) and 0 <= fr < full_lens[tr], 'center_index_wrong',
+                lambda: 'centre (%d, %d) is outside the files on disk (lengths %s, --subsample %d)' % (tr, fr, full_lens, sub))
+        require(fr % sub == 0, 'center_index_wrong', lambda: 'frame %d was never loaded with --subsample %d' % (fr, sub))
+        gi.append(int(sstarts[tr] + fr // sub))
+        want_structs.append((group_of[tr], loaded_all[tr][fr]))
+    # the structures written are the addressed frames, all atoms (with one topology in the order of the index file; with
+    # several the front end groups them by topology, so only the collection is compared)
+    got_structs = [np.asarray(c.xyz[0]) for c in ctrs]
+    if not two:
+        for i, ((_, wx), gx) in enumerate(zip(want_structs, got_structs)):
+            require(gx.shape == wx.shape and np.allclose(gx, wx, rtol=0, atol=1e-6), 'center_not_frame',
+                    lambda: 'structure %d in the centres file is not frame %s of the files on disk' % (i, tuple(int(v) for v in inds[i])))
+    else:
+        pool_ = list(want_structs)
+        for i, gx in enumerate(got_structs):
+            hit = [j for j, (_, wx) in enumerate(pool_) if wx.shape == gx.shape and np.allclose(gx, wx, rtol=0, atol=1e-6)]
+            require(hit, 'center_not_frame', lambda: 'structure %d in the centres file is none of the frames the index file addresses' % i)
+            pool_.pop(hit[0])
+    if (algo == 'kcenters' or n_iters == 0) and tie_free:
+        require(gi == [int(c) for c in serial.center_indices], 'differs_from_serial',
+                lambda: 'trajectory app on %d ranks: centres %s, serial library run on the same frames gives %s' %
+                (N, gi, list(map(int, serial.center_indices))))
+        ctx.hit('traj_app_equals_serial')
+    require(len(set(gi)) == len(gi), 'duplicate_center', lambda: 'centres %s' % gi)
+    if sub == 1:
+        dist = ra.load(out['dist'])
+        assig = ra.load(out['assig'])
+
+        def flat(x):
+            return np.asarray(x._data) if hasattr(x, '_data') else np.asarray(x).reshape(-1)
+        lens_d = [int(v) for v in dist.lengths] if hasattr(dist, 'lengths') else ([len(r_) for r_ in np.atleast_2d(dist)] if len(slens) > 1 else [len(flat(dist))])
+        require(lens_d == list(map(int, slens)), 'output_lengths', lambda: 'distances file rows %s, trajectories %s' % (lens_d, slens))
+        d_flat, a_flat = flat(dist).astype(float), flat(assig).astype(int)
+        centers_sel = [Xall[c] for c in gi]
+        M.check_consistent(Xall, 'rmsd', gi, centers_sel, a_flat, d_flat, where='output files of apps.cluster --trajectories (%s, %d ranks):' % (algo, N))
+        if (algo == 'kcenters' or n_iters == 0) and tie_free:
+            require(np.array_equal(a_flat, serial.assignments) and P.same_dist(d_flat, serial.distances), 'differs_from_serial',
+                    lambda: 'labels / distances written by %d ranks differ from the serial library run' % N)
